@@ -324,6 +324,10 @@ def steered_spec(draw, steer: Optional[str] = None, **kw):
             o["include_num_access"] = True
             o["missing"] = False
             spec["max_len"] = max(spec["max_len"], 28)
+            # the boot rule of the reader only speaks about hosts that take >= 1 tick to boot
+            for h in (x for z in spec["zones"] for x in z):
+                if "dmbot" in h["sw"]:
+                    h["up"] = max(h["up"], 1)
         if steer == "nic_toggle":
             # red acts in every step from step 0/1 on and BEFORE blue inside a step, so frames are captured by an
             # interface that blue disables later in the same step; NMNE and monitored traffic are both observed
